@@ -106,6 +106,7 @@ type Interp struct {
 	totalInstrs int64
 	verbose     int
 
+	curFrame          *frame
 	obligationAssumed map[obKey]bool
 	snap              map[*ssa.Global]value
 
@@ -196,7 +197,25 @@ func runtimeErr(msg string) value {
 }
 
 func rtPanic(msg string) {
+	if debugPanic {
+		fmt.Fprintf(os.Stderr, "RTPANIC %s\n%s", msg, theInterp.stackString())
+	}
 	panic(targetPanic{runtimeErr("runtime error: " + msg)})
+}
+
+var debugPanic = os.Getenv("GOSYM_PANICTRACE") != ""
+
+func (in *Interp) stackString() string {
+	var sb strings.Builder
+	for fr := in.curFrame; fr != nil; fr = fr.caller {
+		fmt.Fprintf(&sb, "    %s (called at %s)\n", fr.fn, func() string {
+			if fr.caller != nil {
+				return fr.caller.posStr(fr.callPos)
+			}
+			return "-"
+		}())
+	}
+	return sb.String()
 }
 
 var theInterp *Interp
@@ -604,6 +623,9 @@ func (in *Interp) callSSA(caller *frame, callpos token.Pos, fn *ssa.Function, ar
 	}
 	fr.env = make([]value, fi.n)
 	fr.block = fn.Blocks[0]
+	saved := in.curFrame
+	in.curFrame = fr
+	defer func() { in.curFrame = saved }()
 	if len(fn.Locals) > 0 {
 		fr.locals = make([]value, len(fn.Locals))
 		for i, l := range fn.Locals {
@@ -779,7 +801,7 @@ func (in *Interp) store(addr value, v value) {
 		if a == nil {
 			rtPanic("invalid memory address or nil pointer dereference")
 		}
-		*a = copyVal(v)
+		storeInPlace(a, v)
 	case *symRef:
 		vt, ok := scalarTerm(v)
 		if !ok {
@@ -794,6 +816,31 @@ func (in *Interp) store(addr value, v value) {
 		}
 	default:
 		panic(fmt.Sprintf("store to %T", addr))
+	}
+}
+
+// storeInPlace assigns v to *dst; aggregates are copied element-wise into the
+// existing storage so that addresses of fields/elements taken earlier stay valid.
+func storeInPlace(dst *value, v value) {
+	switch x := v.(type) {
+	case structure:
+		if cur, ok := (*dst).(structure); ok && len(cur) == len(x) {
+			for i := range x {
+				storeInPlace(&cur[i], x[i])
+			}
+			return
+		}
+		*dst = copyVal(x)
+	case array:
+		if cur, ok := (*dst).(array); ok && len(cur) == len(x) {
+			for i := range x {
+				storeInPlace(&cur[i], x[i])
+			}
+			return
+		}
+		*dst = copyVal(x)
+	default:
+		*dst = v
 	}
 }
 
